@@ -145,7 +145,7 @@ PROPS = {
                 assumptions=["Send + Sync is a compile-time assertion built with the driver (not an observation)",
                              "schedules are sampled by the OS scheduler (native) or Miri's seeded scheduler"]),
     "C15": dict(bin="c15", oracle=True,
-                legs={"quick": [N, ("o0", 0.5)], "thorough": [N, ("o0", 0.5)]},
+                legs={"quick": [N, ("o0", 0.2)], "thorough": [N, ("o0", 0.25)]},
                 gates=[("counter_min", "values_compared_bitwise", 50000), ("counter_min", "inexact_problems_logged", 500),
                        ("hist_keys_min", "transformation", 5), ("hist_keys_min", "strategy", 8)],
                 assumptions=["exact transformations are exact for every value involved (dyadic grid; checked)",
